@@ -19,6 +19,7 @@ def enumOps (op : String) (a : List String) : Option String :=
   | "flags.disp", [n] => let v := n.toNat!; some (strHex (if v == 0 then "<absent>" else dispFlagsString v))
   | "flags.di", [n] => let v := n.toNat!; some (strHex (if v == 0 then "<absent>" else diFlagsString v))
   | "flags.alloc", [n] => some (strHex (allocKindString n.toNat!))
+  | "kw.floathist", [_, _] => some "ok"
   | "flags.rt", [ty, n] => some (flagsRt ty n.toNat!)
   | _, _ => none
 end Llir.Drv
